@@ -94,8 +94,10 @@ func quotedLocal(g *vh.Gen) string {
 
 func genDomain(g *vh.Gen) string {
 	switch {
-	case g.Chance(0.18):
+	case g.Chance(0.14):
 		return g.Pick(ipLits...)
+	case g.Chance(0.05):
+		return g.Pick("[", "[IPv6:", "[ipv6:", "[IPV6:") + genIP(g) + "]"
 	case g.Chance(0.03):
 		return ""
 	}
@@ -122,6 +124,98 @@ func genDomain(g *vh.Gen) string {
 		d += g.Pick("!", "+x", " ", "@x", "*")
 	}
 	return d
+}
+
+// genIP builds IPv4 / IPv6 literal bodies around every rule of netip.ParseAddr: octet ranges and
+// leading zeros, field counts, group lengths 1..5, the ellipsis at every position (also twice, also
+// with all eight groups present), embedded IPv4 tails, zones.
+func genIP(g *vh.Gen) string {
+	v4 := func() string {
+		n := 4
+		if g.Chance(0.1) {
+			n = 3 + 2*g.Intn(2)
+		}
+		parts := make([]string, n)
+		for i := range parts {
+			parts[i] = g.Pick("0", "1", "9", "10", "99", "100", "199", "255", "256", "300", "01", "00", "007", "", "1a", "25")
+			if g.Chance(0.6) {
+				parts[i] = vh.I(g.Intn(256))
+			}
+		}
+		return strings.Join(parts, ".")
+	}
+	if g.Chance(0.3) {
+		return v4()
+	}
+	n := 1 + g.Intn(9)
+	if g.Chance(0.4) {
+		n = 6 + g.Intn(3)
+	}
+	groups := make([]string, n)
+	const hexd = "0123456789abcdefABCDEF"
+	for i := range groups {
+		k := 1 + g.Intn(4)
+		if g.Chance(0.04) {
+			k = 5
+		}
+		if g.Chance(0.03) {
+			k = 0
+		}
+		b := make([]byte, k)
+		for j := range b {
+			b[j] = hexd[g.Intn(len(hexd))]
+		}
+		if g.Chance(0.02) && k > 0 {
+			b[g.Intn(k)] = "gxz-_"[g.Intn(5)]
+		}
+		groups[i] = string(b)
+	}
+	s := strings.Join(groups, ":")
+	ell := func(s string) string {
+		// replace one ':' by '::', or put '::' in front / at the end
+		switch g.Intn(4) {
+		case 0:
+			return "::" + s
+		case 1:
+			return s + "::"
+		default:
+			idx := []int{}
+			for i := 0; i < len(s); i++ {
+				if s[i] == ':' {
+					idx = append(idx, i)
+				}
+			}
+			if len(idx) == 0 {
+				return "::" + s
+			}
+			i := idx[g.Intn(len(idx))]
+			return s[:i] + ":" + s[i:]
+		}
+	}
+	if g.Chance(0.6) {
+		s = ell(s)
+		if g.Chance(0.05) {
+			s = ell(s)
+		}
+	}
+	if g.Chance(0.2) {
+		if strings.HasSuffix(s, "::") {
+			s += v4()
+		} else {
+			s += ":" + v4()
+		}
+	}
+	switch {
+	case g.Chance(0.03):
+		s += "%eth0"
+	case g.Chance(0.01):
+		s += "%"
+	case g.Chance(0.02):
+		s = ":" + s
+	case g.Chance(0.02):
+		s += ":"
+	}
+	return s
 }
 
 func genRoute(g *vh.Gen) string {
@@ -217,6 +311,18 @@ func genAddress(g *vh.Gen) string {
 	if g.Chance(0.01) {
 		a = strings.Replace(a, "a", g.Pick("\xc3\xa9", "\xe2\x84\xaa", "\xff", "\xc4\xb0"), 1)
 	}
+	if g.Chance(0.02) {
+		// non-ASCII runes whose Unicode lower-case is ASCII or that fold to ASCII letters: U+212A KELVIN SIGN -> k,
+		// U+0130 -> i (+ combining dot in some tables), U+017F long s, and an upper-case non-ASCII letter; anywhere
+		// in the address (local part, label domain, literal)
+		subs := [][2]string{{"k", "\u212a"}, {"K", "\u212a"}, {"i", "\u0130"}, {"I", "\u0130"}, {"s", "\u017f"}, {"e", "\u00c9"}, {"m", "\u041c"}, {"c", "\uff23"}, {"b", "\uff22"}, {"1", "\uff11"}}
+		sub := subs[g.Intn(len(subs))]
+		if i := strings.LastIndex(a, sub[0]); i >= 0 && g.Chance(0.6) {
+			a = a[:i] + sub[1] + a[i+1:]
+		} else {
+			a = strings.Replace(a, sub[0], sub[1], 1)
+		}
+	}
 	return a
 }
 
@@ -273,18 +379,24 @@ func gen(g *vh.Gen) {
 		}
 		g.Emit("plus", vh.HS(l), vh.HS(e), vh.HS(flipCase(g, genDomain(g), 0.2)))
 	}
-	// net.ParseIP assumptions
-	for i := 0; i < g.N(2000, 50000); i++ {
-		lit := g.Pick(ipLits...)
-		lit = strings.TrimSuffix(strings.TrimPrefix(lit, "["), "]")
-		if g.Chance(0.5) {
-			lit = strings.TrimPrefix(lit, "IPv6:")
+	// IP literals: the modelled parser against net.ParseIP
+	for i := 0; i < g.N(6000, 150000); i++ {
+		var lit string
+		switch {
+		case g.Chance(0.6):
+			lit = genIP(g)
+		default:
+			lit = g.Pick(ipLits...)
+			lit = strings.TrimSuffix(strings.TrimPrefix(lit, "["), "]")
+			if g.Chance(0.5) {
+				lit = strings.TrimPrefix(lit, "IPv6:")
+			}
 		}
-		lit = flipCase(g, lit, 0.4)
-		if g.Chance(0.3) {
+		lit = flipCase(g, lit, 0.3)
+		if g.Chance(0.15) {
 			lit = mutate(g, lit)
 		}
-		if g.Chance(0.1) {
+		if g.Chance(0.05) {
 			hexd := "0123456789abcdefABCDEF:.:"
 			b := make([]byte, 2+g.Intn(30))
 			for j := range b {
